@@ -152,6 +152,9 @@ pub struct Trace {
     pub sig_checks: Vec<(Vec<u8>, Vec<u8>, bool)>,
     /// (opcode, preimage, digest)
     pub hashes: Vec<(u8, Vec<u8>, Vec<u8>)>,
+    /// for each entry of `hashes`: was the input length-checked by `SIZE <32> EQUALVERIFY`
+    /// immediately before (i.e. is this a hash-lock fragment rather than a pk_h)?
+    pub hash_after_size32: Vec<bool>,
     /// (digest, ok) comparisons via EQUAL/EQUALVERIFY
     pub equal_checks: Vec<(Vec<u8>, Vec<u8>, bool)>,
     pub cltv_args: Vec<i64>,
@@ -573,6 +576,8 @@ fn eval_inner(
     let mut altstack: Vec<Vec<u8>> = Vec::new();
     let mut vf_exec: Vec<bool> = Vec::new();
     let mut op_count = 0usize;
+    // last three executed instructions (opcode, pushed data)
+    let mut recent: Vec<(u8, Option<Vec<u8>>)> = Vec::new();
     if trace.max_stack < st.stack.len() {
         trace.max_stack = st.stack.len();
     }
@@ -786,6 +791,12 @@ fn eval_inner(
                         HASH160 => hash160::Hash::hash(&v).to_byte_array().to_vec(),
                         _ => sha256d::Hash::hash(&v).to_byte_array().to_vec(),
                     };
+                    let n = recent.len();
+                    let sized = n >= 3
+                        && recent[n - 3].0 == SIZE
+                        && recent[n - 2].1.as_deref() == Some(&[0x20u8][..])
+                        && recent[n - 1].0 == EQUALVERIFY;
+                    trace.hash_after_size32.push(sized);
                     trace.hashes.push((opcode, v, h.clone()));
                     st.push(h);
                 }
@@ -903,6 +914,12 @@ fn eval_inner(
                     }
                 }
                 _ => return Err(ScriptError::BadOpcode(opcode)),
+            }
+        }
+        if f_exec {
+            recent.push((opcode, ins.data.clone()));
+            if recent.len() > 3 {
+                recent.remove(0);
             }
         }
         let tot = st.stack.len() + altstack.len();
